@@ -107,12 +107,12 @@ class ParCons(RankAggAlgorithm, PairwiseBasedAlgorithm):
                 if len(scc_i) > self._bound_for_exact:
                     cons_ext = self._auxiliary_alg.compute_consensus_rankings(
                         sub_problem, scoring_scheme, True).consensus_rankings[0]
-                    res.extend(cons_ext)
+                    res.extend(ParCons.buckets_with_elements_of(cons_ext, set_current_elements))
                     optimal = False
                 else:
                     cons_ext = ParCons._exact_algorithm().compute_consensus_rankings(
                         sub_problem, scoring_scheme, True).consensus_rankings[0]
-                    res.extend(cons_ext)
+                    res.extend(ParCons.buckets_with_elements_of(cons_ext, set_current_elements))
 
         hash_information = {
             ConsensusFeature.ASSOCIATED_ALGORITHM: self.get_full_name(),
